@@ -22,7 +22,7 @@ RULE = ("each case is a slice of one codec's domain; every value in it is pushed
 ASSUMPTIONS = [
     "domains are the documented ones: T2 integer encoder int16 only (wider values are re-encoded as 16.16 by documented back-compat hack), CFF integers int32, reals to 8 significant digits",
     "spec-written decoders in vmon/oracle/codecs.py are the trusted base",
-    "tags are 4 printable-ASCII characters with spaces only trailing (OpenType tag rule)",
+    "tags are any 4 printable-ASCII characters (0x20-0x7E), spaces in any position included",
 ]
 CASE_TIMEOUT = 300
 MANIFEST = {
@@ -500,9 +500,10 @@ def setup():
             return False
         if not isinstance(t, str) or len(t) != 4:
             return False
-        if not all(32 <= ord(c) <= 126 for c in t):
-            return False
-        return t.rstrip(" ") != "" and " " not in t.rstrip(" ")
+        # the property quantifies over all 4-character tags of printable ASCII, which
+        # includes tags with leading or embedded spaces (not valid OpenType tags, but
+        # the mangling functions are total on them and documented as reversible)
+        return all(32 <= ord(c) <= 126 for c in t)
 
     def post_tagToIdentifier(st, a, kw, res, exc):
         t = a[0]
@@ -1053,6 +1054,10 @@ def drv_tags(case, rnd, ctx):
     for _ in range(20000 if case["full"] else 4000):
         L = rnd.randrange(1, 5)
         tags.add("".join(rnd.choice(chars) for _i in range(L)).ljust(4))
+    # spaces in every position (leading, embedded, all spaces)
+    for mask in range(16):
+        for _k in range(40 if case["full"] else 12):
+            tags.add("".join(" " if mask >> i & 1 else rnd.choice(pal + punct[:6]) for i in range(4)))
     from fontTools.ttLib import ttFont
     tags.update(t.ljust(4) for t in ["OS/2", "cvt ", "CFF ", "SVG ", "glyf", "GSUB", "TSI0", "Zapf", "prep", "gasp", "fpgm", "BASE", "meta"])
     tags = sorted(tags)
